@@ -46,13 +46,20 @@ REC_SETUP = [
          "formula": "len(People.lookupRecords(team=$team))"},
         {"id": "f_prev", "type": "Any", "isFormula": True,
          "formula": "PREVIOUS(rec, group_by=\"team\", order_by=\"age\").name"},
+        # reads a formula column that sorts AFTER it, and only in some rows (evaluation of f_aa is
+        # suspended by an OrderError and resumed)
+        {"id": "f_aa", "type": "Any", "isFormula": True,
+         "formula": "$f_age2 if $age > 20 else $age"},
     ]]],
     [["AddColumn", "Teams", "members", {"type": "RefList:People", "isFormula": False}],
      ["AddColumn", "Teams", "f_n", {"type": "Any", "isFormula": True, "formula": "len($members)"}],
      ["AddColumn", "Teams", "f_names", {"type": "Any", "isFormula": True,
                                        "formula": "sorted($members.name)"}],
      ["AddColumn", "Teams", "f_look", {"type": "Any", "isFormula": True,
-                                      "formula": "People.lookupRecords(team=$id, order_by=\"-age\").name"}]],
+                                      "formula": "People.lookupRecords(team=$id, order_by=\"-age\").name"}],
+     # RecordSet -> RefList column -> field (composed relations across two hops)
+     ["AddColumn", "People", "f_tm", {"type": "Any", "isFormula": True,
+                                     "formula": "sorted(Teams.lookupRecords(title=$team.title).members.name)"}]],
     [["BulkAddRecord", "Teams", [None, None], {"title": ["red", "blue"]}],
      ["BulkAddRecord", "People", [None, None, None], {
          "name": ["ann", "bob", "cy"], "age": [30, 20, 20], "boss": [0, 1, 1],
@@ -120,6 +127,10 @@ class WRec(World):
       A(("FAIL second action", [["UpdateRecord", "People", P[0] if P else 1, {"age": 99}],
                                 ["UpdateRecord", "People", 77, {"age": 1}]]))
       A(("FAIL unknown col", [["AddRecord", "People", None, {"nope": 1}]]))
+      A(("FAIL docaction upd 2nd col unknown", [["ApplyDocActions", [
+          ["UpdateRecord", "People", P[0] if P else 1, {"age": 5, "nosuch": 1}]]]]))
+      A(("FAIL docaction add 2nd col unknown", [["ApplyDocActions", [
+          ["AddRecord", "People", 17, {"age": 5, "nosuch": 1}]]]]))
     return out
 
 
@@ -232,6 +243,10 @@ class WSchema(World):
           "type": "Int", "isFormula": False, "formula": "1", "recalcWhen": 0,
           "recalcDeps": ["L", col_ref(doc, 'People', 'age')]}]]))
     if people and not self.reduced:
+      # the second schema doc action of ONE user action fails (in rebuild_usercode: keyword)
+      A(("FAIL docactions addcol then addcol keyword", [["ApplyDocActions", [
+          ["AddColumn", "People", "zz", {"type": "Int", "isFormula": False, "formula": ""}],
+          ["AddColumn", "People", "class", {"type": "Int", "isFormula": False, "formula": ""}]]]]))
       A(("FAIL remcol missing", [["RemoveColumn", "People", "nope"]]))
       A(("FAIL add then bad", [["AddColumn", "People", "tmpc", {"type": "Int", "isFormula": False}],
                                ["RemoveColumn", "People", "nope"]]))
@@ -360,6 +375,12 @@ class WSum(World):
         if not self.reduced and has_col(doc, tid, 'count'):
           A(("addcol %s formula" % tid, [["AddColumn", tid, "tot", {
               "isFormula": True, "type": "Any", "formula": "len($group)"}]]))
+      if sums and S and hs('n'):
+        # source edit + the summary table losing its last widget in ONE bundle
+        for (tid, secs, src) in sums[1:3]:
+          if secs:
+            A(("upd S n + rem section of %s" % tid, [["UpdateRecord", "Src", S[0], {"n": 100}],
+                                                      ["RemoveRecord", "_grist_Views_section", secs[0]]]))
       if sums and not self.reduced:
         tid = sums[-1][0]
         gcols = [c for c in ('k', 'kind', 'kl', 'rl') if has_col(doc, tid, c)]
@@ -581,6 +602,9 @@ class WTrig(World):
                                   ["UpdateRecord", "T", R[0], {"b": 34}]]))
     for r in R[:1]:
       A(("rem T%d" % r, [["RemoveRecord", "T", r]]))
+      if ht('a'):
+        A(("FAIL upd a then bad row", [["UpdateRecord", "T", r, {"a": 9}],
+                                       ["UpdateRecord", "T", 99, {"a": 1}]]))
     if not self.reduced:
       if ht('a'):
         A(("rencol T.a->aa", [["RenameColumn", "T", "a", "aa"]]))
